@@ -22,9 +22,11 @@ def trace_body(F, impl):
     return c[0] if len(c) == 1 else None
 
 
-def coverage(ctx, F, vb, rule, key, fn, adt, traced_params=(), what="trace"):
+def coverage(ctx, F, vb, rule, key, fn, adt, traced_params=(), what="trace", selfty=None):
     reads = field_uses_of(F, fn, adt.path, "_1", depth=3)
-    req = [fd for fd in adt.fields if vb.ty(fd["ty"], adt.crate, traced_params)]
+    from kern import substitute_generics
+    req = [fd for fd in adt.fields if vb.ty(substitute_generics(adt, selfty, fd["ty"]) if selfty else fd["ty"],
+                                           adt.crate, traced_params)]
     for fd in req:
         k = (fd["variant"] + "." + fd["name"]) if adt.kind == "Enum" else fd["name"]
         ctx.check(k in reads, rule, "%s:%s" % (key, k),
@@ -51,7 +53,7 @@ def r1_trace(ctx, F, vb):
             continue
         traced = [p.split(":")[0].strip() for p in i["preds"] if re.search(r":\s*(starlark::)?values::trace::Trace<", p)]
         n_adts += 1
-        n = coverage(ctx, F, vb, "C03.R1", adt.path, f, adt, traced)
+        n = coverage(ctx, F, vb, "C03.R1", adt.path, f, adt, traced, selfty=i["selfty"])
         n_fields += n
         if n == 0:
             ctx.ok("C03.R1", adt.path + ":(no value-bearing field)")
